@@ -184,7 +184,7 @@ pub fn dispatch(a: &Args) -> Option<(Acc, RunMeta)> {
         }
         "C06" => {
             let (acc, exhaustive) = c06::run(a);
-            let mut m = meta(a, "complete sweep of every concatenation of up to 6 (quick) / 8 (thorough) tokens from {'/','.','..','a','b.c','é','.h','a.'} joined onto bases of depth 0-3 (exhaustive for that bound), plus random strings over arbitrary characters and random chains of join/parent/root; oracle = independent component-stack resolver + canonical-form predicate + laws (parent-of-join, filename, extension, root, is_root, equality within/across instances, composition); VfsPath and AsyncVfsPath; distinct_nontrivial = distinct argument strings containing a separator or '..'", &["the bounded sweep is complete for its token bound only; beyond it arguments are sampled"]);
+            let mut m = meta(a, "complete sweep of every concatenation of up to 7 (quick) / 9 (thorough) tokens from {'/','.','..','a','b.c','é','.h','a.'} joined onto bases of depth 0-3 (exhaustive for that bound), plus random strings over arbitrary characters and random chains of join/parent/root; oracle = independent component-stack resolver + canonical-form predicate + laws (parent-of-join, filename, extension, root, is_root, equality within/across instances, composition); VfsPath and AsyncVfsPath; distinct_nontrivial = distinct argument strings containing a separator or '..'", &["the bounded sweep is complete for its token bound only; beyond it arguments are sampled"]);
             m.exhaustive = Some(exhaustive);
             Some((acc, m))
         }
